@@ -12,8 +12,10 @@ VERIF = Path(__file__).resolve().parent.parent
 REPO = Path(os.environ.get("BBV_REPO", "/repo"))
 SPEC = VERIF / "spec"
 WORK = VERIF / ".work"
-ARTIFACTS = VERIF / "artifacts"
-EVIDENCE = VERIF / "evidence"
+# trials against scratch worktrees (tools/try_mutant.sh) write their artifacts / evidence elsewhere, so that they never
+# replace the evidence of the registered checks
+ARTIFACTS = Path(os.environ.get("BBV_ARTIFACTS", VERIF / "artifacts"))
+EVIDENCE = Path(os.environ.get("BBV_EVIDENCE", VERIF / "evidence"))
 GUARD = "BLUEBONNET_VERIF"
 
 os.environ.setdefault("OMP_NUM_THREADS", "1")
